@@ -71,7 +71,12 @@ def run(ctx):
         ctx.evaluations += len(t)
         if t != base:
             i = next((k for k in range(min(len(t), len(base))) if t[k] != base[k]), min(len(t), len(base)))
-            ctx.violations.append({'key': 'C19/transcript-differs-with-logging', 'what': 'logging=%s changes behaviour at transcript line %d: off=%r %s=%r' % (
+            key = 'C19/transcript-differs-with-logging'
+            offl = base[i] if i < len(base) else ''
+            if offl.startswith('refused '):
+                # the panic of a refused configuration: keyed by the configuration
+                key = 'C19/refusal-differs-with-logging:' + offl[len('refused '):].split(':')[0].replace(' ', '-').replace(',', '')
+            ctx.violations.append({'key': key, 'what': 'logging=%s changes behaviour at transcript line %d: off=%r %s=%r' % (
                 mode, i, base[i] if i < len(base) else '<end>', mode, t[i] if i < len(t) else '<end>'),
                 'case': {'mode': mode, 'line': i, 'context_off': base[max(0, i - 3):i + 2], 'context_mode': t[max(0, i - 3):i + 2]}})
     ctx.samples.append({'transcript_sha256': hashlib.sha256('\n'.join(base).encode()).hexdigest(), 'lines': len(base), 'example': base[:4]})
